@@ -12,6 +12,7 @@ def build_u1(b, sym, flags):
     t.file("R/a.txt", 1)
     t.file("R/b c.txt", 2, size=0 if flags.get("empty_b") else 5)
     t.file("R/d/ü.txt", 3)
+    t.file("R/d/Cafe\u0301.mov", 6)  # decomposed (NFD) name as produced by macOS file systems
     if flags.get("deep", True):
         t.file("R/d/e/x&y.txt", 4)
     if flags.get("emptydir", True):
@@ -37,10 +38,12 @@ def scenario(variant, tier):
         patterns = []
         if nested:
             t = build_u2(b, sym)
+            t.file("R/B/shoot.log", 6)  # matches a pattern that only a nested history was sealed with
             # nested histories created first, bottom-up or not at the solver's choice
             order = sym.choose("child_order", [["R/A/AA", "R/AB"], ["R/AB", "R/A/AA"], ["R/A/AA", "R/A"]])
+            child_pats = ["*.log"] if sym.flag("children_sealed_with_own_pattern") else []
             for c in order:
-                r = b.run("create", root=c, h=["md5"])
+                r = b.run("create", root=c, h=["md5"], i=child_pats)
                 b.require(r.exit == 0, "setup-create", "child %s: %s" % (c, r))
         else:
             junk = sym.flag("junk")
@@ -72,10 +75,12 @@ def scenario(variant, tier):
             if part == "alter":
                 f = sym.choose("alter_target%d" % pi, [x for x in files if x not in used])
                 used.add(f)
-                newcid = sym.int("newcid%d" % pi, 1, 9)
+                # equality pattern of the new content: fresh | equal to another file's content | unchanged
+                other = [x for x in files if x != f][0]
+                newcid = sym.choose("newcid%d" % pi, [9, t.files[other], t.files[f]])
                 oldsize = b.size(f)
                 grow = sym.flag("alter_size%d" % pi)
-                changed = not truth(newcid == t.files[f])
+                changed = newcid != t.files[f]
                 if changed:
                     b.alter(f, newcid, (oldsize + 3) if grow else (oldsize if oldsize else 4))
                     altered.append(f)
@@ -180,7 +185,7 @@ def harnesses(tier):
         Harness("c03-u1", scenario("u1", tier), frontier=5, budget_s=1500,
                 what="seal U1 (1-2 generations, format sets, optional *.tmp ignore), one mutation (thorough: pairs), then verify, diff, create",
                 bounds={"tree": "R/{a.txt,'b c.txt'(empty or not),d/{ü.txt,e/{x&y.txt}?,t.tmp?},z/?}", "generations": "1-2",
-                        "mutations": "none|alter(cid' symbolic, same/different size)|delete|rmdir|add|touch|ignored alter/delete/add" +
+                        "mutations": "none|alter(fresh / another file's / same content; same or different size)|delete|rmdir|add|touch|ignored alter/delete/add" +
                                      ("" if tier == "quick" else "|pairs alter+add, delete+alter, delete+add")},
                 outside=out),
         Harness("c03-nested", scenario("nested", tier), frontier=5, budget_s=1500,
